@@ -707,6 +707,37 @@ def classify(prop, trace, v):
     return sig
 
 
+def _cycles_closed_by_last(lv):
+    """Multiset of (min, max) level pairs of the cycles that the last sample
+    closes in the steady state (it must be a reversal of the repeated sequence)."""
+    rev = per.cyclic_reversals(lv)
+    last = lv[-1]
+    if not rev or last not in rev:
+        return Counter()
+    # rotate so that the period ends with the last sample of the sequence
+    comp = [x for i, x in enumerate(lv) if i == 0 or lv[i - 1] != x]
+    wrapped = False
+    while len(comp) > 1 and comp[0] == comp[-1]:
+        comp.pop()               # plateau across the junction: the last sample lives in comp[0]
+        wrapped = True
+    if wrapped:
+        comp = comp[1:] + comp[:1]
+    # index in rev of the reversal that is the last sample: the final reversal in sequence order
+    seq_rev = []
+    m = len(comp)
+    for i in range(m):
+        a, b, c = comp[i - 1], comp[i], comp[(i + 1) % m]
+        if (b - a) * (c - b) < 0:
+            seq_rev.append(b)
+    if not seq_rev or seq_rev[-1] != last:
+        return Counter()
+    pts = list(enumerate(seq_rev * 3))
+    before, _ = rref.four_point(pts[:-1])
+    after, _ = rref.four_point(pts)
+    closed = after[len(before):]
+    return Counter((min(a, b), max(a, b)) for a, b, _, _ in closed)
+
+
 def _c04_known_configuration(lv, step, missing, surplus):
     """Finding-specific classifier (DESIGN 6): computed from the sequence and the
     observed surplus alone.
@@ -714,15 +745,19 @@ def _c04_known_configuration(lv, step, missing, surplus):
     F-C04-4: the last sample (looking through a trailing plateau) is a reversal
     of the repeated sequence but not a turning point if a zero load followed;
     pass 1 defers it, pass 2 processes it first and flushes it last, so pass 2
-    covers one period plus one reversal and exactly one cycle ending at that
-    sample is counted twice."""
+    covers one period plus one reversal and the cycles which that sample closes
+    are counted twice: nothing is missing and the surplus consists only of
+    cycles closed by the last sample."""
     last = lv[-1]
     prev = next((x for x in reversed(lv[:-1]) if x != last), None)
-    if prev is None:
+    if prev is None or missing or not surplus:
         return None
     zturn = (last - prev) * (0 - last) < 0
-    if (per.is_periodic_reversal_last(lv) and not zturn and not missing and len(surplus) == 1
-            and last * step in [float(x) for x in surplus[0]]):
+    if not per.is_periodic_reversal_last(lv) or zturn:
+        return None
+    closed = Counter({(a * step, b * step): n for (a, b), n in _cycles_closed_by_last(lv).items()})
+    sur = Counter((float(a), float(b)) for a, b in surplus)
+    if all(closed.get(k, 0) >= n for k, n in sur.items()):
         return "deferred-true-reversal-processed-twice"
     return None
 
